@@ -33,7 +33,7 @@ class PathEnum:
         self.facts = facts
         self.fn = fn
         self.it = interp or Interp(facts, fn)
-        self.sym = Sym(fn)
+        self.sym = Sym(fn, facts=facts)
         self.max_paths = max_paths
         self.revisit = False
 
@@ -198,47 +198,79 @@ class PathEnum:
         return self._can_ret
 
     def paths(self, is_target, start=0, init=None, stop=None):
-        """DNF: list of (frozenset(atoms), target node's block) for acyclic paths start -> target.
-        is_target(block, state_before_terminator) ; the path ends at the first target met."""
+        """DNF: list of (frozenset(atoms), target block) for acyclic paths start -> target in the exploded
+        graph.  Computed by memoised DFS (a node met again on the current stack contributes nothing);
+        intermediate DNFs are simplified and bounded."""
         it = self.it
         fn = self.fn
-        out = []
-        count = [0]
+        g = it.explore(start, dict(init or {}), stop=(lambda b, st: is_target(b, st) or (stop(b, st) if stop else False)))
+        live = self.can_return()
+        memo = {}
+        onstack = set()
+        budget = [0]
 
-        def dfs(b, st, atoms, onpath):
-            if count[0] > self.max_paths:
-                raise Bound('more than %d paths in %s' % (self.max_paths, fn.path))
-            if fn.blocks[b]['cleanup']:
-                return
-            pre = it.step_block(dict(st), b)
+        def rec(n):
+            if n in memo:
+                return memo[n]
+            b = g.block(n)
+            pre = g.pre_term.get(n)
+            if pre is None:
+                return frozenset()
             if is_target(b, pre):
-                count[0] += 1
-                out.append((frozenset(atoms), b))
-                return
-            if stop and stop(b, pre):
-                return
-            succ = list(it.succ_states(pre, b))
-            # a branch whose other side can only diverge (assert!/panic!/unreachable!) is not a decision:
-            # count only successors from which some `return` is reachable
-            live = self.can_return()
-            nsucc = len({sb for sb, _, _ in succ if sb in live})
-            for sb, s2, lab in succ:
-                # acyclic in the exploded graph: a block may be revisited with a different abstract state
-                # (a `while` loop whose flag was just set), never with the same one
-                live_in = fn.live_in()[sb]
-                if self.revisit:
-                    key = (sb, freeze({k: v for k, v in s2.items() if _live(k, live_in)}))
-                else:
-                    key = sb
-                if key in onpath:
+                memo[n] = frozenset([(frozenset(), b)])
+                return memo[n]
+            if n in g.stopped:
+                memo[n] = frozenset()
+                return memo[n]
+            key = n if self.revisit else b
+            if key in onstack:
+                return None
+            onstack.add(key)
+            succs = g.succ(n)
+            nsucc = len({g.block(m) for m in succs if g.block(m) in live})
+            out = set()
+            cut = False
+            for m in succs:
+                sb = g.block(m)
+                sub = rec(m)
+                if sub is None:
+                    cut = True
+                    continue
+                if not sub:
                     continue
                 a = self.atom_for(b, sb, nsucc)
-                extra = [a] if a else []
+                lab = g.labels.get((n, m))
+                extra = set()
+                if a:
+                    extra.add(a)
                 if lab is not None:
-                    extra.append(('is', '<input>', lab))
-                dfs(sb, s2, atoms + extra, onpath | {key})
-        dfs(start, dict(init or {}), [], {(start, freeze(dict(init or {}))) if self.revisit else start})
-        return out
+                    extra.add(('is', '<input>', lab))
+                for (c, tb) in sub:
+                    out.add((c | extra if extra else c, tb))
+            onstack.discard(key)
+            if len(out) > 48:
+                by = {}
+                for c, tb in out:
+                    by.setdefault(tb, []).append(c)
+                out = set()
+                for tb, cs in by.items():
+                    for c in simplify(cs):
+                        out.add((c, tb))
+            budget[0] += len(out)
+            if len(out) > self.max_paths or budget[0] > 300000:
+                raise Bound('decision table of %s exceeds the clause bound' % fn.path)
+            res = frozenset(out)
+            if not cut:
+                memo[n] = res     # complete only when no cycle was cut below this node
+            return res
+        import sys
+        old = sys.getrecursionlimit()
+        sys.setrecursionlimit(max(old, 20000))
+        try:
+            res = rec(g.root)
+        finally:
+            sys.setrecursionlimit(old)
+        return list(res or [])
 
 
 def simplify(dnf):
